@@ -148,6 +148,20 @@ def pool_keys(strategy_name, m, k, seed=0, count=6):
     return keys[:max(count, 5)], covered
 
 
+def cover_table(m, k, nkeys=16):
+    """nkeys keys whose positions are spread so that together they touch (almost) every byte of an m-bit
+    array: key i hits bits ((i + t*nkeys) * 8 + (i + t) % 8) mod m for t = 0..k-1, hash values also above 2^32"""
+    items = []
+    for i in range(nkeys):
+        vals = []
+        for t in range(k):
+            pos = ((i + t * nkeys) * 8 + (i + t) % 8) % m
+            vals.append(pos + m * ((1 << 33) // m + 7 + t))
+        key = f"cover-{i:02d}-" + "x" * (i % 3) * 9  # some keys longer than 16 bytes
+        items.append((key.encode() if i % 4 == 3 else key, vals))
+    return items
+
+
 def strategy(name, m=None, k=None):
     if name == "table":
         return table_strategy(table_for_bits(m, k))
@@ -163,6 +177,16 @@ def alphabet(name, m, k, seed=0):
     if ck not in _alpha_cache:
         _alpha_cache[ck] = _alphabet(name, m, k, seed)
     return _alpha_cache[ck]
+
+
+def corridor_alphabet(name, m, k, seed=0, nkeys=16):
+    """a longer key list for the scale-up ("corridor") configurations"""
+    if name == "cover":
+        items = cover_table(m, k, nkeys)
+        return [key for key, _ in items], table_strategy(items)
+    prefix = f"c{seed}-"
+    keys = [(f"{prefix}{i}-{'y' * (i % 4) * 7}").encode() if i % 3 == 2 else f"{prefix}{i}-{'y' * (i % 4) * 7}" for i in range(nkeys)]
+    return keys, SHIPPED[name]
 
 
 def _alphabet(name, m, k, seed=0):
